@@ -21,7 +21,7 @@ func init() {
 			"(lock requirement propagated through the call graph; `go` targets and exported entry points start with nothing held). Objects allocated in the same function are exempt " +
 			"(nobody else can see them yet). collection is locked per type: child collections are protected by the root's mutex.",
 		Props: []string{"C17", "C03", "C20"},
-		Floor: 120,
+		Floor: 114,
 		Run:   ruleLock1,
 		Exceptions: []string{
 			"(*Footer).doLoadSegments writes Footer.ss: its receiver is always a footer under construction (buildNewFooter / writeSegments result, ScanFooter literal) or a child of one",
@@ -37,7 +37,7 @@ func init() {
 			"critical section: whenever the second is reachable from the first it is reachable without passing Unlock, Lock or Cond.Wait of the collection lock. This covers the merger hand-over " +
 			"top->mid, notify mid->base, persister base->clean + lower level, Close, and the five reads of snapshot() and get().",
 		Props: []string{"C01", "C03", "C11", "C13"},
-		Floor: 20,
+		Floor: 22,
 		Run:   ruleLock2,
 	})
 	register(&Rule{
@@ -59,7 +59,7 @@ func init() {
 		Doc: "Atomics: every access to a field of a shared *CollectionStats (reached through a `stats` field) is the address operand of a sync/atomic call; " +
 			"local / parameter CollectionStats values are exempt; AtomicCopyTo uses reflection and is the one table entry.",
 		Props: []string{"C17"},
-		Floor: 50,
+		Floor: 31,
 		Run:   ruleLock4,
 	})
 	register(&Rule{
@@ -67,7 +67,7 @@ func init() {
 		Doc: "Unlocked writer => readers must skip: mergerNotifyPersister rewrites lowerLevelSnapshot of a published stack under the collection lock only, so every segmentStack.Get whose receiver " +
 			"was loaded from a collection section field must pass ReadOptions with SkipLowerLevel == true (the lower level is consulted once, last, through the collection's own reference).",
 		Props: []string{"C17", "C10", "C03"},
-		Floor: 3,
+		Floor: 2,
 		Run:   ruleLock5,
 	})
 }
